@@ -47,7 +47,7 @@ package electreIII
 //@   loop 2 invariant [ctx] fresh(newCriteria) && newCriteria != nil
 
 //@ func (*ElectreIIIBiasLIstener).RankCriteriaAscending
-//@   property C15 C07
+//@   property C15 C07 C16 C18 C19
 //@   refines model.BiasListener.RankCriteriaAscending with validParams=elValid, coversId=elCovers, imp=elImportance
 //@   loop 1 invariant [copied] forall k string :: seen(k) ==> (k in weights && weights[k] == (*params.MethodParameters.(electreIIIParams).Criteria)[k].K)
 //@   loop 1 invariant [ctx] fresh(weights) && weights != nil
@@ -203,19 +203,25 @@ package electreIII
 // ascRank / descRank: the two distillations as (abstract) functions of the credibility matrix and the distillation function given
 //@ spec ascRank(m *AlternativesMatrix, f *utils.LinearFunctionParameters) *[]int
 //@ spec descRank(m *AlternativesMatrix, f *utils.LinearFunctionParameters) *[]int
+// that a distillation is a function of the matrix and the distillation function is assumed ("assumes"); its shape is proved
 //@ func RankAscending
-//@   trusted
+//@   property C05 C06 C20
 //@   requires [nonneg_distillation] distillationFun != nil && nonnegOnUnit(*distillationFun)
-//@   ensures result == ascRank(matrix, distillationFun)
+//@   requires [square] matrix.Values != nil
+//@   assumes [a_function_of_matrix_and_distillation_function] result == ascRank(matrix, distillationFun)
+//@   ensures [one_class_number_per_alternative] result != nil && len(*result) == matrix.Values.Size
 //@ func RankDescending
-//@   trusted
+//@   property C05 C06 C20
 //@   requires [nonneg_distillation] distillationFun != nil && nonnegOnUnit(*distillationFun)
-//@   ensures result == descRank(matrix, distillationFun)
+//@   requires [square] matrix.Values != nil
+//@   assumes [a_function_of_matrix_and_distillation_function] result == descRank(matrix, distillationFun)
+//@   ensures [one_class_number_per_alternative] result != nil && len(*result) == matrix.Values.Size
 
 //@ func ElectreIII
 //@   property C20 C05 C01 C06
 //@   requires [nonneg_distillation] distillationFun != nil && nonnegOnUnit(*distillationFun)
 //@   ensures [ranking] result != nil
+//@   ensures [one_entry_per_alternative_given_in_that_order] len(*result) == len(alternatives) && forall a int :: 0 <= a && a < len(alternatives) ==> (*result)[a].Alternative == alternatives[a]
 //@   returnhint [both_distillations_of_the_same_matrix_with_the_configured_function] ascending == ascRank(matrix, distillationFun) && descending == descRank(matrix, distillationFun)
 
 //@ func (*ElectreIIIPreferenceFunc).Evaluate
@@ -223,6 +229,7 @@ package electreIII
 //@   requires [valid_parameters] typeis(dmp.MethodParameters, electreIIIParams) && dmp.MethodParameters.(electreIIIParams).DistillationFun != nil
 //@             && nonnegOnUnit(*dmp.MethodParameters.(electreIIIParams).DistillationFun)
 //@   ensures [ranking] result != nil
+//@   ensures [exactly_the_considered_alternatives] len(*result) == len(dmp.ConsideredAlternatives) && forall a int :: 0 <= a && a < len(dmp.ConsideredAlternatives) ==> (*result)[a].Alternative == dmp.ConsideredAlternatives[a]
 
 //@ func (*ElectreIIIPreferenceFunc).ParseParams
 //@   property C20 C05 C07
@@ -301,9 +308,42 @@ package electreIII
 //@   property C05 C06
 //@   requires [starts_at_the_largest_credibility] !isInner ==> isMax(maxCred, *matrix)
 //@   ensures [positions] result != nil && fresh(result) && fresh(*result)
+//@   ensures [one_position_per_row] len(*result) == matrix.Size
 //@ func rank
 //@   property C05 C06
-//@   ensures [positions] result != nil
+//@   requires [square] matrix.Values != nil
+//@   ensures [positions] result != nil && fresh(result) && fresh(*result)
+//@   ensures [one_position_per_alternative] len(*result) == matrix.Values.Size
+//@ func removeDiagonal
+//@   property C05 C06
+//@   requires [square] matrix.Values != nil
+//@   ensures [same_size] result != nil && result.Size == matrix.Values.Size
+//@ func removeDiagonal$1
+//@   property C05 C06
+//@   nopanic
+//@   ensures [off_diagonal] result <==> row != col
+// the sub-matrices the recursion works on: their size is what the position lists are sized by
+//@ func (*Matrix).Slice
+//@   property C05 C06
+//@   assigns *indices
+//@   ensures [one_row_per_index] result != nil && result.Size == len(*indices) && *indices == old(*indices) && (result == m || fresh(result))
+//@   loop 1 invariant [ctx] *indices == old(*indices) && resultSize == len(*indices)
+//@   loop 2 invariant [ctx] *indices == old(*indices) && resultSize == len(*indices) && fresh(resultData)
+//@ func (*Matrix).Without
+//@   property C05 C06
+//@   ensures [rows_removed] result != nil && (len(*indices) == m.Size ? result == m : (fresh(result) && result.Size == m.Size - len(*indices)))
+//@   ensures [input_untouched] unchanged(*indices)
+//@   loop 1 invariant [ctx] fresh(sorted) && fresh(data) && size == m.Size && toRemove == len(*indices) && unchanged(*indices)
+//@   loop 2 invariant [ctx] fresh(sorted) && fresh(resultData) && size == m.Size - len(*indices) && unchanged(*indices)
+//@ func updateValues
+//@   property C05 C06
+//@   assigns *original
+//@   ensures [in_place] *original == old(*original)
+//@   loop 1 invariant [in_place] *original == old(*original)
+//@ func updatePositions
+//@   property C05 C06
+//@   assigns *positions, *bestIndices
+//@   ensures [in_place] *positions == old(*positions) && *bestIndices == old(*bestIndices)
 //@   loop 1 invariant [ctx] fresh(indices)
 
 // ---- distillation bookkeeping (C05, C06)
@@ -321,7 +361,7 @@ package electreIII
 //@   property C05 C06
 //@   fnparam isBetter pure
 //@   ensures [a_value_of_the_list] exists k int :: 0 <= k && k < len(*values) && result0 == (*values)[k]
-//@   ensures [indices_hold_the_best] result1 != nil && fresh(result1) && forall m int :: 0 <= m && m < len(*result1) ==> 0 <= (*result1)[m] && (*result1)[m] < len(*values) && (*values)[(*result1)[m]] == result0
+//@   ensures [indices_hold_the_best] result1 != nil && fresh(result1) && fresh(*result1) && forall m int :: 0 <= m && m < len(*result1) ==> 0 <= (*result1)[m] && (*result1)[m] < len(*values) && (*values)[(*result1)[m]] == result0
 //@   ensures [none_is_better] ((forall x int :: !apply(isBetter, x, x)) && (forall x int, y int, z int :: apply(isBetter, x, y) && !apply(isBetter, x, z) ==> !apply(isBetter, y, z)))
 //@             ==> forall k int :: 0 <= k && k < len(*values) ==> !apply(isBetter, result0, (*values)[k])
 //@   loop 1 invariant [a_value] exists k int :: 0 <= k && k < len(*values) && bestValue == (*values)[k]
